@@ -79,6 +79,30 @@ def asarray (h : Heap) (s : Src) (dt : Option Nat) (copy : Bool) : Except PyErr 
     else .ok (h, r)
   | .seq vals => if copy then .ok (alloc h vals (dt.getD 0)) else .error .ValueError
 
+/-! ### the NumPy 1.x primitives the compatibility shim `_numpy1x.asarray` is written in (vocabulary of Gen/AsarrayShim.lean) -/
+
+/-- the outcome of a NumPy call that returns an array `b` for an argument `a`: the heap, `b`, whether `b is a`, whether `b.base is None` -/
+structure AsRes where
+  heap : Heap
+  ref : Ref
+  isA : Bool
+  baseNone : Bool
+  deriving DecidableEq, Repr
+
+/-- `np.asarray(a, dtype)` without a copy argument: an ndarray of the wanted dtype is returned as it is (`sub`: an instance of
+    an ndarray subclass such as a memmap comes back as a base-class view of it; `owns`: `a.base is None`), anything else is
+    converted into a new array -/
+def npAsarrayLegacy (h : Heap) (a : Src) (sub owns : Bool) (dt : Option Nat) : AsRes :=
+  match a with
+  | .arr r =>
+    let want := dt.getD r.dtype
+    if want = r.dtype then ⟨h, r, !sub, !sub && owns⟩
+    else let x := alloc h (rd h r) want; ⟨x.1, x.2, false, true⟩
+  | .seq vals => let x := alloc h vals (dt.getD 0); ⟨x.1, x.2, false, true⟩
+
+/-- `np.copy(b)` -/
+def npCopy (b : AsRes) : AsRes := let x := alloc b.heap (rd b.heap b.ref) b.ref.dtype; ⟨x.1, x.2, false, true⟩
+
 /-! ### objects -/
 
 structure Obj where
